@@ -300,6 +300,69 @@ pub fn roundtrip_with_params(
     Some(roundtrip_inner(compressed, &params))
 }
 
+/// Outcome of `roundtrip_with_params_staged`: tells an analysis failure (permitted: the
+/// stream is rejected under these parameters) from a failure while reconstructing from
+/// correction data that the analysis did produce.
+#[derive(Debug, Clone)]
+pub enum StagedRoundtrip {
+    AnalysisErr(PreflateError),
+    ReconstructErr {
+        error: PreflateError,
+        consumed: usize,
+        corrections: Vec<u8>,
+    },
+    Done(ParamRoundtrip),
+}
+
+/// like `roundtrip_with_params`, but reports in which stage an error happened
+pub fn roundtrip_with_params_staged(compressed: &[u8], vector: &[u32]) -> Option<StagedRoundtrip> {
+    let params = unflatten(vector)?;
+    let contents = match parse_deflate(compressed, 0) {
+        Ok(c) => c,
+        Err(e) => return Some(StagedRoundtrip::AnalysisErr(e)),
+    };
+    let mut cabac_encoded = Vec::new();
+    {
+        let mut cabac_encoder =
+            PredictionEncoderCabac::new(VP8Writer::new(&mut cabac_encoded).unwrap());
+        params.write(&mut cabac_encoder);
+        if let Err(e) = encode_mispredictions(&contents, &params, &mut cabac_encoder) {
+            return Some(StagedRoundtrip::AnalysisErr(e));
+        }
+        cabac_encoder.finish();
+    }
+    let mut cabac_decoder =
+        PredictionDecoderCabac::new(VP8Reader::new(Cursor::new(&cabac_encoded[..])).unwrap());
+    let reread = match PreflateParameters::read(&mut cabac_decoder) {
+        Ok(r) => r,
+        Err(e) => {
+            return Some(StagedRoundtrip::ReconstructErr {
+                error: e,
+                consumed: contents.compressed_size,
+                corrections: cabac_encoded.clone(),
+            })
+        }
+    };
+    match decode_mispredictions(
+        &reread,
+        PreflateInput::new(&contents.plain_text),
+        &mut cabac_decoder,
+    ) {
+        Ok((reconstructed, _blocks)) => Some(StagedRoundtrip::Done(ParamRoundtrip {
+            reconstructed,
+            consumed: contents.compressed_size,
+            plain_text: contents.plain_text,
+            corrections: cabac_encoded,
+            reread: flatten(&reread),
+        })),
+        Err(e) => Some(StagedRoundtrip::ReconstructErr {
+            error: e,
+            consumed: contents.compressed_size,
+            corrections: cabac_encoded.clone(),
+        }),
+    }
+}
+
 fn roundtrip_inner(
     compressed: &[u8],
     params: &PreflateParameters,
